@@ -11,7 +11,10 @@ prop("C02",
                 "reserving policy, app holds reserved addresses, usedCount < replicas: Filter never takes a free address; ok => "
                 "exactly one reserved address re-keyed, a most recently updated one routable from the chosen subnet, only nodes "
                 "of that subnet offered; failure, e.g. store update fault => no record changed, no node offered, no fall-back to a "
-                "fresh allocation), dp_replacement_bind_hands_rekeyed, 8 fact_* theorems; sticky_rebind_two_ips_counter documents "
+                "fresh allocation), dp_replacement_waits_at_quota (same pod while usedCount >= spec.replicas resp. Pool.size - the "
+                "rolling-update order 'replacement filtered before the old pod's address came back': refused with the size-limit "
+                "error, state unchanged), dp_replacement_bind_hands_rekeyed, 9 fact_* theorems (fact_dp_quota_is_spec_replicas: the "
+                "quota is int(*dp.Spec.Replicas), nothing added); sticky_rebind_two_ips_counter documents "
                 "the ipInfos[:1] subtlety (identity owning two addresses without requested ranges).",
      level_note="Nothing is _partial. Overlapping requested ranges (excluded by WFRequest) are outside sticky_rebind's second "
                 "alternative only in that its hypothesis speaks about what byKeyAndRanges returns. Preempt is not modelled.",
@@ -22,7 +25,10 @@ prop("C02",
                "step (incl. observed map-order choices) + monitor: reservation set of the identity / app recorded before every "
                "real Filter and Bind, compared with offered nodes, re-keyed address (most recently updated in the chosen "
                "subnet), free list and binding annotation; histories re-create the same identities over all workload kinds "
-               "with late / lost events, store faults during filter, policy annotation flipping never <-> immutable, topologies "
+               "with late / lost events (replacement pod filtered before the old pod's delete event), workload objects completed "
+               "the way an apiserver defaults them (update strategy RollingUpdate 25%/25%, absolute maxSurge 1..3, 100%, Recreate; "
+               "selector, template, revisionHistoryLimit, progressDeadlineSeconds, status; harness/pluginc03/defaults.go), quota gate "
+               "(usedCount >= spec.replicas / Pool.size => filter must refuse), store faults during filter, policy annotation flipping never <-> immutable, topologies "
                "with >= 2 node subnets; thorough: breadth-first enumeration of all move sequences <= 6 over one statefulset "
                "and one deployment identity on two pools / two node subnets",
      factgen=["plugin", "c03"],
